@@ -32,6 +32,7 @@ func c13(c *core.Check) {
 	c13FixedWidths(c)
 	c13SpacingCount(c)
 	c13ResumedRowShift(c)
+	c13MaxStart(c)
 
 	r3 := c.Rule("R3", "the table layout code mirrors its side-symmetric assignments, sums margins, paddings and borders with consistent sides, and passes its named arguments in order", 8)
 	tfiles := map[string]bool{"tables.go": true}
@@ -1095,5 +1096,79 @@ func c13ResumedRowShift(c *core.Check) {
 	}
 	if n == 0 {
 		r.Anchor("tableLayout: cell.PositionY += … under a test of the cell's resume stack")
+	}
+}
+
+// c13MaxStart: a running maximum of positions starts below every position.  tableLayout computes the bottom of a
+// row as the maximum of the bottoms of the cells ending in it; started at 0 the maximum is wrong for a table placed
+// above the origin (negative margin): the row is stretched down to y = 0.
+func c13MaxStart(c *core.Check) {
+	p := c.Prog
+	r := c.Rule("R13", "a running maximum of cell positions starts at −∞: in tableLayout every loop variable that is only raised to larger values of PositionY + BorderHeight (`if v > m { m = v }`) enters its loop with −∞, not with a finite constant (a table above the origin has all its cell bottoms below 0)", 1)
+	n := 0
+	for _, fn := range p.FuncsOfPkg("html/layout") {
+		root := fn
+		for root.Parent() != nil {
+			root = root.Parent()
+		}
+		if root.Name() != "tableLayout" {
+			continue
+		}
+		for _, l := range core.Loops(fn) {
+			for _, in := range l.Header.Instrs {
+				phi, ok := in.(*ssa.Phi)
+				if !ok {
+					continue
+				}
+				if b, isB := phi.Type().Underlying().(*types.Basic); !isB || b.Info()&types.IsFloat == 0 {
+					continue
+				}
+				// raised under `v > phi` with v a sum with a PositionY load
+				raised := false
+				for b := range l.Blocks {
+					for _, in2 := range b.Instrs {
+						cmp, ok := in2.(*ssa.BinOp)
+						if !ok || cmp.Op != token.GTR || cmp.Y != ssa.Value(phi) {
+							continue
+						}
+						if add, ok := cmp.X.(*ssa.BinOp); ok && add.Op == token.ADD {
+							for _, side := range []ssa.Value{add.X, add.Y} {
+								if ld, ok := side.(*ssa.UnOp); ok {
+									if fa, ok := ld.X.(*ssa.FieldAddr); ok && core.FieldName(fa) == "PositionY" {
+										raised = true
+									}
+								}
+							}
+						}
+					}
+				}
+				if !raised {
+					continue
+				}
+				for i, pred := range l.Header.Preds {
+					if l.Blocks[pred] {
+						continue
+					}
+					n++
+					start := phi.Edges[i]
+					if inner, ok := start.(*ssa.Phi); ok && len(inner.Edges) > 0 {
+						start = inner.Edges[0]
+					}
+					k, isK := core.ConstFloat(start)
+					if neg, ok := start.(*ssa.UnOp); ok && neg.Op == token.SUB {
+						// −Inf spelled with the package's Inf variable
+						if ld, ok := neg.X.(*ssa.UnOp); ok {
+							if g, ok := ld.X.(*ssa.Global); ok && g.Name() == "Inf" {
+								isK, k = true, -1e38
+							}
+						}
+					}
+					r.Cond(isK && k < -1e30, "html/layout.tableLayout | start of the maximum of the cells' bottoms", p.Pos(phi.Pos()), "starts at −∞", fmt.Sprintf("starts at %v: with every cell bottom below that value (a table moved above the origin by a negative margin) the row is given the height up to it (50 instead of 20)", start))
+				}
+			}
+		}
+	}
+	if n == 0 {
+		r.Anchor("tableLayout: the maximum of the cells' bottoms")
 	}
 }
